@@ -7,31 +7,3 @@ Set Printing Width 100000000.
 Set Printing Depth 100000000.
 Fixpoint bs (l : list nat) : string := match l with [] => EmptyString | n :: r => String (Ascii.ascii_of_nat n) (bs r) end.
 Definition T_ (b : bool) : string := if b then "T" else "F".
-Definition t196 : pt := (mkPacket (mkPtok 1 "options" 1 0 0) (Some (mkPtok 3 "}" 29 0 76)) [(DOption (mkOptionDef (mkSpan (mkPtok 1 "options" 1 0 0) (mkPtok 3 "}" 8 0 23)) (mkPtok 1 "options" 1 0 0) (mkPtok 2 "{" 1 8 1) [(mkOptionDecl (mkSpan (mkPtok 42 "JavaPackage" 2 4 2) (mkPtok 31 """com.example.proto""" 2 18 4)) (mkPtok 42 "JavaPackage" 2 4 2) (mkPtok 4 "=" 2 16 3) (VString (mkSpan (mkPtok 31 """com.example.proto""" 2 18 4) (mkPtok 31 """com.example.proto""" 2 18 4)) (mkPtok 31 """com.example.proto""" 2 18 4)) None); (mkOptionDecl (mkSpan (mkPtok 42 "ArrayPrefixLenType" 3 4 5) (mkPtok 41 ";" 3 29 8)) (mkPtok 42 "ArrayPrefixLenType" 3 4 5) (mkPtok 4 "=" 3 23 6) (VType (mkSpan (mkPtok 21 "u16" 3 25 7) (mkPtok 21 "u16" 3 25 7)) (TyBasic (mkSpan (mkPtok 21 "u16" 3 25 7) (mkPtok 21 "u16" 3 25 7)) (mkBasicType (mkSpan (mkPtok 21 "u16" 3 25 7) (mkPtok 21 "u16" 3 25 7)) (mkPtok 21 "u16" 3 25 7)))) (Some (mkPtok 41 ";" 3 29 8))); (mkOptionDecl (mkSpan (mkPtok 42 "LittleEndian" 4 4 9) (mkPtok 41 ";" 4 25 12)) (mkPtok 42 "LittleEndian" 4 4 9) (mkPtok 4 "=" 4 17 10) (VFalse (mkSpan (mkPtok 11 "false" 4 19 11) (mkPtok 11 "false" 4 19 11)) (mkPtok 11 "false" 4 19 11)) (Some (mkPtok 41 ";" 4 25 12))); (mkOptionDecl (mkSpan (mkPtok 42 "GoPackage" 5 4 13) (mkPtok 31 """proto""" 5 16 15)) (mkPtok 42 "GoPackage" 5 4 13) (mkPtok 4 "=" 5 14 14) (VString (mkSpan (mkPtok 31 """proto""" 5 16 15) (mkPtok 31 """proto""" 5 16 15)) (mkPtok 31 """proto""" 5 16 15)) None); (mkOptionDecl (mkSpan (mkPtok 42 "GoModule" 6 4 16) (mkPtok 41 ";" 6 35 19)) (mkPtok 42 "GoModule" 6 4 16) (mkPtok 4 "=" 6 13 17) (VString (mkSpan (mkPtok 31 """example.com/proto""" 6 15 18) (mkPtok 31 """example.com/proto""" 6 15 18)) (mkPtok 31 """example.com/proto""" 6 15 18)) (Some (mkPtok 41 ";" 6 35 19))); (mkOptionDecl (mkSpan (mkPtok 42 "StringPrefixLenType" 7 4 20) (mkPtok 20 "u8" 7 26 22)) (mkPtok 42 "StringPrefixLenType" 7 4 20) (mkPtok 4 "=" 7 24 21) (VType (mkSpan (mkPtok 20 "u8" 7 26 22) (mkPtok 20 "u8" 7 26 22)) (TyBasic (mkSpan (mkPtok 20 "u8" 7 26 22) (mkPtok 20 "u8" 7 26 22)) (mkBasicType (mkSpan (mkPtok 20 "u8" 7 26 22) (mkPtok 20 "u8" 7 26 22)) (mkPtok 20 "u8" 7 26 22)))) None)] (mkPtok 3 "}" 8 0 23))); (DMeta (mkMetaDef (mkSpan (mkPtok 37 "MetaData" 10 0 25) (mkPtok 3 "}" 13 0 34)) (mkPtok 37 "MetaData" 10 0 25) (mkPtok 42 "Common" 10 9 26) (mkPtok 2 "{" 10 16 27) [(MIDecl (mkMetaDecl (mkSpan (mkPtok 16 "char[]" 11 4 28) (mkPtok 40 "," 11 18 30)) (TyDynamic (mkSpan (mkPtok 16 "char[]" 11 4 28) (mkPtok 16 "char[]" 11 4 28)) (mkDynamicString (mkSpan (mkPtok 16 "char[]" 11 4 28) (mkPtok 16 "char[]" 11 4 28)) (mkPtok 16 "char[]" 11 4 28))) (mkPtok 42 "Symbol" 11 11 29) None (mkPtok 40 "," 11 18 30))); (MIDecl (mkMetaDecl (mkSpan (mkPtok 25 "i16" 12 4 31) (mkPtok 40 "," 12 12 33)) (TyBasic (mkSpan (mkPtok 25 "i16" 12 4 31) (mkPtok 25 "i16" 12 4 31)) (mkBasicType (mkSpan (mkPtok 25 "i16" 12 4 31) (mkPtok 25 "i16" 12 4 31)) (mkPtok 25 "i16" 12 4 31))) (mkPtok 42 "Qty" 12 8 32) None (mkPtok 40 "," 12 12 33)))] (mkPtok 3 "}" 13 0 34))); (DPacket (mkPacketDef (mkSpan (mkPtok 34 "root" 14 0 35) (mkPtok 3 "}" 16 0 41)) (Some (mkPtok 34 "root" 14 0 35)) (mkPtok 35 "packet" 14 5 36) (mkPtok 42 "Leg" 14 12 37) (mkPtok 2 "{" 14 16 38) [(mkFieldWithAttr (mkSpan (mkPtok 42 "Symbol" 15 4 39) (mkPtok 40 "," 15 11 40)) [] (ObjectField (mkSpan (mkPtok 42 "Symbol" 15 4 39) (mkPtok 40 "," 15 11 40)) None (mkPtok 42 "Symbol" 15 4 39) None None (mkPtok 40 "," 15 11 40)))] (mkPtok 3 "}" 16 0 41))); (DPacket (mkPacketDef (mkSpan (mkPtok 35 "packet" 17 0 42) (mkPtok 3 "}" 21 0 53)) None (mkPtok 35 "packet" 17 0 42) (mkPtok 42 "Snapshot" 17 7 43) (mkPtok 2 "{" 17 16 44) [(mkFieldWithAttr (mkSpan (mkPtok 22 "uint32" 18 4 45) (mkPtok 40 "," 18 15 47)) [] (MetaField (mkSpan (mkPtok 22 "uint32" 18 4 45) (mkPtok 40 "," 18 15 47)) None (mkMetaDecl (mkSpan (mkPtok 22 "uint32" 18 4 45) (mkPtok 40 "," 18 15 47)) (TyBasic (mkSpan (mkPtok 22 "uint32" 18 4 45) (mkPtok 22 "uint32" 18 4 45)) (mkBasicType (mkSpan (mkPtok 22 "uint32" 18 4 45) (mkPtok 22 "uint32" 18 4 45)) (mkPtok 22 "uint32" 18 4 45))) (mkPtok 42 "seq" 18 11 46) None (mkPtok 40 "," 18 15 47)))); (mkFieldWithAttr (mkSpan (mkPtok 42 "Symbol" 19 4 48) (mkPtok 40 "," 19 11 49)) [] (ObjectField (mkSpan (mkPtok 42 "Symbol" 19 4 48) (mkPtok 40 "," 19 11 49)) None (mkPtok 42 "Symbol" 19 4 48) None None (mkPtok 40 "," 19 11 49))); (mkFieldWithAttr (mkSpan (mkPtok 42 "Qty" 20 4 50) (mkPtok 40 "," 20 13 52)) [] (ObjectField (mkSpan (mkPtok 42 "Qty" 20 4 50) (mkPtok 40 "," 20 13 52)) None (mkPtok 42 "Qty" 20 4 50) (Some (mkPtok 42 "note" 20 8 51)) None (mkPtok 40 "," 20 13 52)))] (mkPtok 3 "}" 21 0 53))); (DPacket (mkPacketDef (mkSpan (mkPtok 35 "packet" 23 0 54) (mkPtok 3 "}" 29 0 76)) None (mkPtok 35 "packet" 23 0 54) (mkPtok 42 "Logout" 23 7 55) (mkPtok 2 "{" 23 14 56) [(mkFieldWithAttr (mkSpan (mkPtok 9 "@tag(" 24 4 57) (mkPtok 40 "," 24 18 61)) [(FATag (mkSpan (mkPtok 9 "@tag(" 24 4 57) (mkPtok 6 ")" 24 12 59)) (mkTagAttr (mkSpan (mkPtok 9 "@tag(" 24 4 57) (mkPtok 6 ")" 24 12 59)) (mkPtok 9 "@tag(" 24 4 57) (mkPtok 30 "7" 24 10 58) (mkPtok 6 ")" 24 12 59)))] (ObjectField (mkSpan (mkPtok 42 "Qty" 24 14 60) (mkPtok 40 "," 24 18 61)) None (mkPtok 42 "Qty" 24 14 60) None None (mkPtok 40 "," 24 18 61))); (mkFieldWithAttr (mkSpan (mkPtok 42 "Qty" 25 4 62) (mkPtok 40 "," 25 10 64)) [] (ObjectField (mkSpan (mkPtok 42 "Qty" 25 4 62) (mkPtok 40 "," 25 10 64)) None (mkPtok 42 "Qty" 25 4 62) (Some (mkPtok 42 "c" 25 8 63)) None (mkPtok 40 "," 25 10 64))); (mkFieldWithAttr (mkSpan (mkPtok 16 "char[]" 26 4 66) (mkPtok 40 "," 27 7 69)) [] (MetaField (mkSpan (mkPtok 16 "char[]" 26 4 66) (mkPtok 40 "," 27 7 69)) None (mkMetaDecl (mkSpan (mkPtok 16 "char[]" 26 4 66) (mkPtok 40 "," 27 7 69)) (TyDynamic (mkSpan (mkPtok 16 "char[]" 26 4 66) (mkPtok 16 "char[]" 26 4 66)) (mkDynamicString (mkSpan (mkPtok 16 "char[]" 26 4 66) (mkPtok 16 "char[]" 26 4 66)) (mkPtok 16 "char[]" 26 4 66))) (mkPtok 42 "price" 26 11 67) (Some (mkPtok 43 (string_of_bytes [96; 108; 105; 110; 101; 49; 10; 108; 105; 110; 101; 50; 96]%N) 26 17 68)) (mkPtok 40 "," 27 7 69)))); (mkFieldWithAttr (mkSpan (mkPtok 9 "@tag(" 28 4 70) (mkPtok 40 "," 28 31 75)) [(FATag (mkSpan (mkPtok 9 "@tag(" 28 4 70) (mkPtok 6 ")" 28 15 72)) (mkTagAttr (mkSpan (mkPtok 9 "@tag(" 28 4 70) (mkPtok 6 ")" 28 15 72)) (mkPtok 9 "@tag(" 28 4 70) (mkPtok 30 "1128" 28 10 71) (mkPtok 6 ")" 28 15 72)))] (MetaField (mkSpan (mkPtok 20 "uint8" 28 17 73) (mkPtok 40 "," 28 31 75)) None (mkMetaDecl (mkSpan (mkPtok 20 "uint8" 28 17 73) (mkPtok 40 "," 28 31 75)) (TyBasic (mkSpan (mkPtok 20 "uint8" 28 17 73) (mkPtok 20 "uint8" 28 17 73)) (mkBasicType (mkSpan (mkPtok 20 "uint8" 28 17 73) (mkPtok 20 "uint8" 28 17 73)) (mkPtok 20 "uint8" 28 17 73))) (mkPtok 42 "account" 28 23 74) None (mkPtok 40 "," 28 31 75))))] (mkPtok 3 "}" 29 0 76)))]).
-Eval vm_compute in ("<<<W196_alias_short>>>" ++ sh_escaped (render (rw_alias_short t196)) "").
-Eval vm_compute in ("<<<W196_alias_long>>>" ++ sh_escaped (render (rw_alias_long t196)) "").
-Eval vm_compute in ("<<<W196_alias_long_opts>>>" ++ sh_escaped (render (rw_alias_long_opts t196)) "").
-Eval vm_compute in ("<<<W196_zchar>>>" ++ sh_escaped (render (rw_zchar t196)) "").
-Eval vm_compute in ("<<<W196_drop_default_pad>>>" ++ sh_escaped (render (rw_drop_default_pad t196)) "").
-Eval vm_compute in ("<<<W196_add_default_pad>>>" ++ sh_escaped (render (rw_add_default_pad t196)) "").
-Eval vm_compute in ("<<<W196_prefix_attr>>>" ++ sh_escaped (render (rw_prefix_attr t196)) "").
-Eval vm_compute in ("<<<W196_default_options>>>" ++ sh_escaped (render (rw_default_options t196)) "").
-Eval vm_compute in ("<<<W196_expand_keys>>>" ++ sh_escaped (render (rw_expand_keys t196)) "").
-Eval vm_compute in ("<<<W196_inline_meta>>>" ++ sh_escaped (render (rw_inline_meta t196)) "").
-Eval vm_compute in ("<<<W196_seps_all>>>" ++ sh_escaped (render (rw_seps_all t196)) "").
-Eval vm_compute in ("<<<W196_seps_none>>>" ++ sh_escaped (render (rw_seps_none t196)) "").
-Eval vm_compute in ("<<<W196_drop_docs>>>" ++ sh_escaped (render (rw_drop_docs t196)) "").
-Definition t505 : pt := (mkPacket (mkPtok 1 "options" 1 0 0) (Some (mkPtok 3 "}" 1 232 58)) [(DOption (mkOptionDef (mkSpan (mkPtok 1 "options" 1 0 0) (mkPtok 3 "}" 1 83 14)) (mkPtok 1 "options" 1 0 0) (mkPtok 2 "{" 1 8 1) [(mkOptionDecl (mkSpan (mkPtok 42 "StringPrefixLenType" 1 10 2) (mkPtok 41 ";" 1 34 5)) (mkPtok 42 "StringPrefixLenType" 1 10 2) (mkPtok 4 "=" 1 30 3) (VType (mkSpan (mkPtok 20 "u8" 1 32 4) (mkPtok 20 "u8" 1 32 4)) (TyBasic (mkSpan (mkPtok 20 "u8" 1 32 4) (mkPtok 20 "u8" 1 32 4)) (mkBasicType (mkSpan (mkPtok 20 "u8" 1 32 4) (mkPtok 20 "u8" 1 32 4)) (mkPtok 20 "u8" 1 32 4)))) (Some (mkPtok 41 ";" 1 34 5))); (mkOptionDecl (mkSpan (mkPtok 42 "ArrayPrefixLenType" 1 36 6) (mkPtok 41 ";" 1 60 9)) (mkPtok 42 "ArrayPrefixLenType" 1 36 6) (mkPtok 4 "=" 1 55 7) (VType (mkSpan (mkPtok 22 "u32" 1 57 8) (mkPtok 22 "u32" 1 57 8)) (TyBasic (mkSpan (mkPtok 22 "u32" 1 57 8) (mkPtok 22 "u32" 1 57 8)) (mkBasicType (mkSpan (mkPtok 22 "u32" 1 57 8) (mkPtok 22 "u32" 1 57 8)) (mkPtok 22 "u32" 1 57 8)))) (Some (mkPtok 41 ";" 1 60 9))); (mkOptionDecl (mkSpan (mkPtok 42 "LittleEndian" 1 62 10) (mkPtok 41 ";" 1 81 13)) (mkPtok 42 "LittleEndian" 1 62 10) (mkPtok 4 "=" 1 75 11) (VTrue (mkSpan (mkPtok 10 "true" 1 77 12) (mkPtok 10 "true" 1 77 12)) (mkPtok 10 "true" 1 77 12)) (Some (mkPtok 41 ";" 1 81 13)))] (mkPtok 3 "}" 1 83 14))); (DMeta (mkMetaDef (mkSpan (mkPtok 37 "MetaData" 1 85 15) (mkPtok 3 "}" 1 122 24)) (mkPtok 37 "MetaData" 1 85 15) (mkPtok 42 "M" 1 94 16) (mkPtok 2 "{" 1 96 17) [(MIDecl (mkMetaDecl (mkSpan (mkPtok 15 "string" 1 98 18) (mkPtok 40 "," 1 109 20)) (TyDynamic (mkSpan (mkPtok 15 "string" 1 98 18) (mkPtok 15 "string" 1 98 18)) (mkDynamicString (mkSpan (mkPtok 15 "string" 1 98 18) (mkPtok 15 "string" 1 98 18)) (mkPtok 15 "string" 1 98 18))) (mkPtok 42 "Name" 1 105 19) None (mkPtok 40 "," 1 109 20))); (MIDecl (mkMetaDecl (mkSpan (mkPtok 21 "uint16" 1 111 21) (mkPtok 40 "," 1 120 23)) (TyBasic (mkSpan (mkPtok 21 "uint16" 1 111 21) (mkPtok 21 "uint16" 1 111 21)) (mkBasicType (mkSpan (mkPtok 21 "uint16" 1 111 21) (mkPtok 21 "uint16" 1 111 21)) (mkPtok 21 "uint16" 1 111 21))) (mkPtok 42 "Id" 1 118 22) None (mkPtok 40 "," 1 120 23)))] (mkPtok 3 "}" 1 122 24))); (DPacket (mkPacketDef (mkSpan (mkPtok 35 "packet" 1 124 25) (mkPtok 3 "}" 1 184 44)) None (mkPtok 35 "packet" 1 124 25) (mkPtok 42 "B" 1 131 26) (mkPtok 2 "{" 1 133 27) [(mkFieldWithAttr (mkSpan (mkPtok 42 "Name" 1 135 28) (mkPtok 40 "," 1 139 29)) [] (ObjectField (mkSpan (mkPtok 42 "Name" 1 135 28) (mkPtok 40 "," 1 139 29)) None (mkPtok 42 "Name" 1 135 28) None None (mkPtok 40 "," 1 139 29))); (mkFieldWithAttr (mkSpan (mkPtok 36 "repeat" 1 141 30) (mkPtok 40 "," 1 154 33)) [] (ObjectField (mkSpan (mkPtok 36 "repeat" 1 141 30) (mkPtok 40 "," 1 154 33)) (Some (mkPtok 36 "repeat" 1 141 30)) (mkPtok 42 "Id" 1 148 31) (Some (mkPtok 42 "ids" 1 151 32)) None (mkPtok 40 "," 1 154 33))); (mkFieldWithAttr (mkSpan (mkPtok 42 "G" 1 156 34) (mkPtok 40 "," 1 182 43)) [] (InerObjectField (mkSpan (mkPtok 42 "G" 1 156 34) (mkPtok 40 "," 1 182 43)) None (InerObjectDecl (mkSpan (mkPtok 42 "G" 1 156 34) (mkPtok 3 "}" 1 181 42)) (mkPtok 42 "G" 1 156 34) (mkPtok 2 "{" 1 158 35) [(MetaField (mkSpan (mkPtok 16 "char[]" 1 160 36) (mkPtok 40 "," 1 168 38)) None (mkMetaDecl (mkSpan (mkPtok 16 "char[]" 1 160 36) (mkPtok 40 "," 1 168 38)) (TyDynamic (mkSpan (mkPtok 16 "char[]" 1 160 36) (mkPtok 16 "char[]" 1 160 36)) (mkDynamicString (mkSpan (mkPtok 16 "char[]" 1 160 36) (mkPtok 16 "char[]" 1 160 36)) (mkPtok 16 "char[]" 1 160 36))) (mkPtok 42 "s" 1 167 37) None (mkPtok 40 "," 1 168 38))); (MetaField (mkSpan (mkPtok 29 "float64" 1 170 39) (mkPtok 40 "," 1 179 41)) None (mkMetaDecl (mkSpan (mkPtok 29 "float64" 1 170 39) (mkPtok 40 "," 1 179 41)) (TyBasic (mkSpan (mkPtok 29 "float64" 1 170 39) (mkPtok 29 "float64" 1 170 39)) (mkBasicType (mkSpan (mkPtok 29 "float64" 1 170 39) (mkPtok 29 "float64" 1 170 39)) (mkPtok 29 "float64" 1 170 39))) (mkPtok 42 "f" 1 178 40) None (mkPtok 40 "," 1 179 41)))] (mkPtok 3 "}" 1 181 42)) (mkPtok 40 "," 1 182 43)))] (mkPtok 3 "}" 1 184 44))); (DPacket (mkPacketDef (mkSpan (mkPtok 34 "root" 1 186 45) (mkPtok 3 "}" 1 232 58)) (Some (mkPtok 34 "root" 1 186 45)) (mkPtok 35 "packet" 1 191 46) (mkPtok 42 "A" 1 198 47) (mkPtok 2 "{" 1 200 48) [(mkFieldWithAttr (mkSpan (mkPtok 22 "uint32" 1 202 49) (mkPtok 40 "," 1 225 54)) [] (LengthField (mkSpan (mkPtok 22 "uint32" 1 202 49) (mkPtok 40 "," 1 225 54)) (mkLengthFieldDecl (mkSpan (mkPtok 22 "uint32" 1 202 49) (mkPtok 40 "," 1 225 54)) (Some (TyBasic (mkSpan (mkPtok 22 "uint32" 1 202 49) (mkPtok 22 "uint32" 1 202 49)) (mkBasicType (mkSpan (mkPtok 22 "uint32" 1 202 49) (mkPtok 22 "uint32" 1 202 49)) (mkPtok 22 "uint32" 1 202 49)))) (mkPtok 42 "len" 1 209 50) (mkLengthOf (mkSpan (mkPtok 7 "@lengthOf(" 1 213 51) (mkPtok 6 ")" 1 224 53)) (mkPtok 7 "@lengthOf(" 1 213 51) (mkPtok 42 "b" 1 223 52) (mkPtok 6 ")" 1 224 53)) None (mkPtok 40 "," 1 225 54)))); (mkFieldWithAttr (mkSpan (mkPtok 42 "B" 1 227 55) (mkPtok 40 "," 1 230 57)) [] (ObjectField (mkSpan (mkPtok 42 "B" 1 227 55) (mkPtok 40 "," 1 230 57)) None (mkPtok 42 "B" 1 227 55) (Some (mkPtok 42 "b" 1 229 56)) None (mkPtok 40 "," 1 230 57)))] (mkPtok 3 "}" 1 232 58)))]).
-Eval vm_compute in ("<<<W505_alias_short>>>" ++ sh_escaped (render (rw_alias_short t505)) "").
-Eval vm_compute in ("<<<W505_alias_long>>>" ++ sh_escaped (render (rw_alias_long t505)) "").
-Eval vm_compute in ("<<<W505_alias_long_opts>>>" ++ sh_escaped (render (rw_alias_long_opts t505)) "").
-Eval vm_compute in ("<<<W505_zchar>>>" ++ sh_escaped (render (rw_zchar t505)) "").
-Eval vm_compute in ("<<<W505_drop_default_pad>>>" ++ sh_escaped (render (rw_drop_default_pad t505)) "").
-Eval vm_compute in ("<<<W505_add_default_pad>>>" ++ sh_escaped (render (rw_add_default_pad t505)) "").
-Eval vm_compute in ("<<<W505_prefix_attr>>>" ++ sh_escaped (render (rw_prefix_attr t505)) "").
-Eval vm_compute in ("<<<W505_default_options>>>" ++ sh_escaped (render (rw_default_options t505)) "").
-Eval vm_compute in ("<<<W505_expand_keys>>>" ++ sh_escaped (render (rw_expand_keys t505)) "").
-Eval vm_compute in ("<<<W505_inline_meta>>>" ++ sh_escaped (render (rw_inline_meta t505)) "").
-Eval vm_compute in ("<<<W505_seps_all>>>" ++ sh_escaped (render (rw_seps_all t505)) "").
-Eval vm_compute in ("<<<W505_seps_none>>>" ++ sh_escaped (render (rw_seps_none t505)) "").
-Eval vm_compute in ("<<<W505_drop_docs>>>" ++ sh_escaped (render (rw_drop_docs t505)) "").
